@@ -206,9 +206,41 @@ fn check_histories(acc: &mut Acc, rank: u64, input: &[u8], po: &PO, src: Src, de
     }
 }
 
+/// The five ways of reading a stream agree item for item (reference: next_value loop on the slice;
+/// the others on the stream source). With `all_values`, every item must be a value.
+fn check_ways(acc: &mut Acc, sub: &str, rank: u64, text: &[u8], po: &PO, all_values: bool, what: &str) {
+    let o = po.to_lexpr();
+    let cap = text.len() + 4;
+    let reference = {
+        let mut p = Parser::from_slice_custom(text, o);
+        drive(&mut p, Style::NextValue, cap, false)
+    };
+    let (h, pi) = (hex(text), po.index());
+    if all_values {
+        let n = reference.len().saturating_sub(1);
+        let ok = reference.last() == Some(&Item::End) && reference[..n].iter().all(|i| matches!(i, Item::Val(_)));
+        if !ok {
+            let bad = reference.iter().position(|i| !matches!(i, Item::Val(_))).unwrap_or(0);
+            acc.violation(sub, "stream-rejected", "stream-rejected:spelled", rank, what.to_string(), format!("item {} of the next_value loop is {}", bad, reference.get(bad).map(|i| show_items(std::slice::from_ref(i))).unwrap_or_default()), || json!({"input_hex": h, "po": pi, "ways": true}));
+        }
+    }
+    for style in [Style::ValueIter, Style::DatumIter, Style::ParserIter, Style::NextDatum] {
+        let mut p = Parser::from_reader_custom(text, o);
+        let items = drive(&mut p, style, cap, false);
+        if items != reference {
+            let first = items.iter().zip(reference.iter()).position(|(a, b)| a != b).unwrap_or(items.len().min(reference.len()));
+            acc.violation(sub, "ways-disagree", &format!("ways-disagree:{:?}", style), rank, format!("style={:?} {}", style, what), format!("first difference from the next_value loop at item {}: {} vs {}", first, items.get(first).map(|i| show_items(std::slice::from_ref(i))).unwrap_or_default(), reference.get(first).map(|i| show_items(std::slice::from_ref(i))).unwrap_or_default()), || json!({"input_hex": h, "po": pi, "ways": true}));
+        }
+    }
+}
+
 pub fn replay(sub: &str, case: &J, acc: &mut Acc) {
     let input = unhex(case["input_hex"].as_str().unwrap_or(""));
     let po = PO::from_index(case["po"].as_u64().unwrap_or(0));
+    if case["ways"].as_bool() == Some(true) {
+        check_ways(acc, sub, 0, &input, &po, sub.ends_with("spelled"), "replayed stream");
+        return;
+    }
     match sub {
         "iteration" => check_iteration(acc, 0, &input, &po, case["reader"].as_bool().unwrap_or(false)),
         "histories" => {
@@ -294,7 +326,7 @@ pub fn run(ctx: &Ctx) -> Report {
             });
             rep.absorb(sub, accs);
             // triples over a smaller set, all separator pairs
-            let small: Vec<usize> = (0..vals.len()).filter(|i| i % (if thorough { 3 } else { 9 }) == 0).collect();
+            let small: Vec<usize> = (0..vals.len()).filter(|i| i % (if thorough { 3 } else { 13 }) == 0).collect();
             let nsm = small.len() as u64;
             let name3 = format!("concatenation3-{}", dname);
             let total3 = nsm * nsm * nsm * ns;
@@ -319,6 +351,101 @@ pub fn run(ctx: &Ctx) -> Report {
             });
             rep.absorb(sub, accs);
         }
+    }
+    if ctx.want("long-streams") {
+        // "all finite sequences": long ones too — whatever the parser keeps per datum (nesting
+        // budget, scratch space, look-ahead) must be given back between the items of one stream
+        // (seed C12-d3: one unit of the nesting budget per quotation, visible after 126 items)
+        for (dname, pr, prm, po) in dialects() {
+            let x = RV::sym("x");
+            let kinds: Vec<RV> = vec![
+                RV::list(vec![RV::sym("quote"), x.clone()]),
+                RV::list(vec![RV::sym("quasiquote"), RV::list(vec![x.clone(), RV::list(vec![RV::sym("unquote"), x.clone()])])]),
+                RV::list(vec![RV::sym("unquote-splicing"), x.clone()]),
+                RV::Vector(vec![]),
+                RV::Vector(vec![x.clone(), RV::Vector(vec![])]),
+                RV::Null,
+                RV::list(vec![x.clone(), RV::list(vec![RV::Null])]),
+                RV::cons(x.clone(), RV::Int(1)),
+                RV::Bytes(vec![1, 2]),
+                RV::str("s\"\\"),
+                RV::Char('('),
+                RV::Float(1e21),
+                RV::sym("a"),
+                RV::kw("k"),
+                RV::Int(-7),
+            ];
+            let vals: Vec<Val> = printable(kinds).into_iter().filter(|v| allowed(v, &prm, &po)).collect();
+            let name = format!("long-streams-{}", dname);
+            let lens: Vec<usize> = if thorough { vec![130, 400, 2000] } else { vec![130, 400] };
+            // one stream per (length, rotation offset, separator family)
+            let mut cases: Vec<(usize, usize, usize)> = Vec::new();
+            for &n in &lens {
+                for off in 0..vals.len() {
+                    for sf in 0..3 {
+                        cases.push((n, off, sf));
+                    }
+                }
+            }
+            let sub = Sub::new(&name, "streams of 130 and 400 (thorough: 2000) printed values — quote forms, empty and nested vectors and lists, pairs, byte vectors, strings, characters, numbers, symbols, keywords — as uniform streams of each kind and as rotating mixtures, separated by rotating trivia: the four ways of iterating, from slice, stream and str, must yield exactly these values and then the end of input; non-trivial = every stream", &format!("{} streams", cases.len() * 2));
+            let accs = par_ranks(cases.len() as u64 * 2, |rank, acc| {
+                let (n, off, sf) = cases[(rank / 2) as usize];
+                let uniform = rank % 2 == 0;
+                let mut text: Vec<u8> = Vec::new();
+                let mut exp: Vec<RV> = Vec::with_capacity(n);
+                for i in 0..n {
+                    let v = &vals[if uniform { off } else { (off + i) % vals.len() }];
+                    let t = match print_dialect(&v.m, &pr) {
+                        Some(t) => t,
+                        None => return,
+                    };
+                    text.extend_from_slice(&t);
+                    let sep = match sf {
+                        0 => seps[0],
+                        1 => seps[(i * 5 + 1) % seps.len()],
+                        _ => seps[(i + off) % seps.len()],
+                    };
+                    text.extend_from_slice(sep);
+                    exp.push(fold(&prm, &po, &v.m));
+                }
+                acc.nontrivial += 1;
+                acc.outcome(&(n, uniform, sf));
+                acc.sample(rank, || format!("{} items, uniform={} first={:?}", n, uniform, crate::util::trunc(&show_bytes(&text), 40)));
+                check_stream(acc, &name, rank, &text, &po, &exp, "long");
+                // the four ways of iterating agree on the long stream as well
+                check_ways(acc, &name, rank, &text, &po, false, &format!("stream of {} printed items", n));
+            });
+            rep.absorb(sub, accs);
+        }
+    }
+    if ctx.want("long-streams") {
+        // the same with hand-written spellings that the printer never produces (quote shorthands,
+        // bracket lists, radix literals, character names): the four ways must agree item for item
+        let spelled: Vec<&str> = vec!["'x", "`(x ,x ,@x)", ",@x", "''x", "#('x)", "(a . 'b)", "[a 'b]", "#xff", "#\\space", "#u8(1 2)", "\"s\"", "(a . (b . (c)))", "#(a #(b))", "x"];
+        let name = "long-streams-spelled";
+        let lens: Vec<usize> = if thorough { vec![130, 400, 2000] } else { vec![130, 400] };
+        let mut cases: Vec<(usize, usize, bool)> = Vec::new();
+        for &n in &lens {
+            for off in 0..spelled.len() {
+                cases.push((n, off, true));
+                cases.push((n, off, false));
+            }
+        }
+        let sub = Sub::new(name, "streams of 130 and 400 (thorough: 2000) hand-written spellings — quote shorthands, bracket lists, radix literals, character names, nested dotted notation — uniform and rotating, separated by rotating trivia, default options: next_value loop (slice), value_iter, datum_iter, Iterator for Parser and next_datum loop (stream) yield the same items, all of them values, then the end of input", &format!("{} streams", cases.len()));
+        let accs = par_ranks(cases.len() as u64, |rank, acc| {
+            let (n, off, uniform) = cases[rank as usize];
+            let mut text: Vec<u8> = Vec::new();
+            for i in 0..n {
+                text.extend_from_slice(spelled[if uniform { off } else { (off + i) % spelled.len() }].as_bytes());
+                text.extend_from_slice(seps[(i + off) % seps.len()]);
+            }
+            acc.evals += 1;
+            acc.nontrivial += 1;
+            acc.outcome(&(n, uniform, off));
+            let po = PO::default_();
+            check_ways(acc, name, rank, &text, &po, true, &format!("stream of {} items (uniform={}, first spelling {:?})", n, uniform, spelled[off]));
+        });
+        rep.absorb(sub, accs);
     }
     if ctx.want("trivia") {
         for (dname, pr, prm, po) in dialects() {
